@@ -10,3 +10,15 @@ package utils
 //@   frame none
 //@ func StreamResponseBody
 //@   frame none
+
+// ---- C02 -------------------------------------------------------------------------------------
+// Which requests are "streaming uploads" whose signature check is deferred to the end of the body.
+//@ func IsBigDataAction
+//@   pure
+//@   let q = ctx.Request().URI().QueryArgs()
+//@   ensures {C02} [definition] ret0 <==> (ctx.Method() == "PUT" && len(strings.Split(ctx.Path(), "/")) >= 3 \
+//@        && !q.Has("tagging") && ctx.Get("X-Amz-Copy-Source") == "" && !q.Has("acl"))
+//@ func IsSpecialPayload
+//@   pure
+//@ func IsStreamingPayload
+//@   pure
